@@ -46,7 +46,12 @@ def one_declaration(draw, layout=True):
         c["use"] = draw(st.booleans())
     elif kind == "table":
         n = draw(st.integers(1, 6))
-        names = draw(gen.distinct_names(n))
+        if draw(st.integers(0, 2)) == 0:
+            from . import c06  # keyword-shaped / delimited column names are legal in a TABLE type (not in an OBJECT type)
+
+            names = draw(c06.distinct(n, "col"))
+        else:
+            names = draw(gen.distinct_names(n))
         c["cols"] = [[nm] + list(draw(gen.type_and_size(allow_random_word=False))) + [draw(st.sampled_from([None, "NULL", "NOT NULL"]))] for nm in names]
     elif kind == "kv":
         n = draw(st.integers(1, 3))
